@@ -174,9 +174,22 @@ merge the change into (`respect_min_utxo = change_output_index is None`) -/
 def finalArgs (outs : List Output) (a : ChangeArgs) (mergeChange : Bool) : ChangeArgs :=
   { a with outputs := outs.map (·.amount), respect := (mergeIndex outs a mergeChange).isNone }
 
+def withRespect (a : ChangeArgs) (r : Bool) : ChangeArgs := { a with respect := r }
+
+/-- `_calc_changes()` of `_add_change_and_fee`: the change is computed without the minimum-ADA requirement when there is
+an output to merge it into; if it then comes out split over several outputs nothing is merged, and it is computed
+again with the requirement (those outputs are new outputs of their own) -/
+def finalChanges (p : Params) (outs : List Output) (a : ChangeArgs) (mergeChange : Bool) : Except Err (List Output) :=
+  match calcChange p (finalArgs outs a mergeChange) with
+  | .error e => .error e
+  | .ok cs =>
+    if (mergeIndex outs a mergeChange).isSome && cs.length != 1 then
+      calcChange p (withRespect (finalArgs outs a mergeChange) true)
+    else .ok cs
+
 /-- the output list of the body after `_add_change_and_fee(change_address, merge_change)` with final fee `a.fee` -/
 def finalOutputs (p : Params) (outs : List Output) (a : ChangeArgs) (mergeChange : Bool) : Except Err (List Output) :=
-  match calcChange p (finalArgs outs a mergeChange) with
+  match finalChanges p outs a mergeChange with
   | .error e => .error e
   | .ok cs => .ok (mergeChanges outs (mergeIndex outs a mergeChange) cs)
 
